@@ -32,6 +32,11 @@ def b128(n):
 
 def gen(tier, rng):
     out = []
+    # the accessors as such, before the framework's exhaustion check (see C14): what is left afterwards
+    for m in ("ber", "cer", "der"):
+        for c in [b"", b"\x00", b"\x2a", b"\x80", b"\x80\x01", b"\x2a\x80", b"\x2a\x86\x48", b"\x2a\x86", b"\xff\xff\xff\xff\x7f", b"\x2a\x80\x01", b"\x51\x83\x00"]:
+            out.append("prim %s %s oid rem takeall" % (m, hx(c)))
+            out.append("prim %s %s oidskip rem takeall" % (m, hx(c)))
     modes = ["ber", "cer", "der"]
     contents = [b""] + [bytes([a]) for a in range(256)] + [bytes([a, b]) for a in range(256) for b in range(256)]
     for c in contents:
